@@ -14,6 +14,20 @@ import os
 
 SRC_BASE, DST_BASE = 1 << 20, 1 << 24
 BYVALUE = os.environ.get("C05_BYVALUE", "") == "1"
+
+
+def _d42_fixed():
+    import json
+    p = os.path.join(os.path.dirname(os.path.dirname(os.path.dirname(os.path.abspath(__file__)))),
+                     "known_findings.d", "C05.json")
+    try:
+        return any(f.get("id") == "D42" and f.get("status") == "fixed" for f in json.load(open(p)).get("findings", []))
+    except OSError:
+        return True
+
+
+# model variant of from_stride follows the status of finding D42 (fix F42); C05_PRE42=1 checks an unpatched tree
+PRE42 = os.environ.get("C05_PRE42", "") == "1" or (not _d42_fixed() and os.environ.get("C05_PRE42", "") != "0")
 # the harness's own width table: bytes per element = ceil(bits / 8); the type under test is never asked for `.size`
 WIDTHS = [1, 4, 7, 8, 8, 12, 16, 16, 20, 24, 32, 32, 32, 33, 64, 64]
 ELT = {b: f"i{b}" for b in WIDTHS}
@@ -776,7 +790,7 @@ class C05(Prop):
         # C05_BYVALUE=1: model of the code BEFORE fix F21 (LCB membership by Stride value), for an unpatched tree
         return [{"fn": "c05.lower", "args": {"src": mt(case["src"]), "dst": mt(case["dst"]), "rs": case["rs"],
                                              "rd": case["rd"], "idxs": idxs, "byValue": BYVALUE,
-                                             "ignore": bool(case.get("ignore"))}}]
+                                             "ignore": bool(case.get("ignore")), "pre42": PRE42}}]
 
     def _sample_idxs(self, case):
         shape = case["rs"]["shape"]
@@ -854,7 +868,7 @@ class C05(Prop):
             return "impl and model outputs differ"
         # the model's layout-defined address (the one its theorem speaks about) against the specification side
         if (addrs is not None and case["kind"] == "copy" and self._in_quantifier(case) and tile_divides(case)
-                and not zero_stride_tiled(case)):
+                and not (PRE42 and zero_stride_tiled(case))):
             fs, fd = addr_fn(case["src"], case["rs"]), addr_fn(case["dst"], case["rd"])
             el = case["src"]["el"]
             offs = case["rs"]["base"], case["rd"]["base"]
@@ -952,8 +966,8 @@ class C05(Prop):
         if not problems:
             return []
         fid = None
-        if zero_stride_tiled(case):
-            fid = "D42"
+        if PRE42 and zero_stride_tiled(case):
+            fid = "D42"  # only on a tree without fix F42 (C05_PRE42=1); the finding is fixed
         elif not tile_divides(case):
             fid = "D32"
         elif any(s[0] is None for s in impl_out.get("lcb") or []):
